@@ -13,7 +13,7 @@ from vf.core import LibRaised, Result, lib
 ID = "C11"
 TITLE = "Array evaluation equals elementwise scalar evaluation for every dtype"
 LEVEL = "exploration"
-BUDGET = {"quick": 4000, "thorough": 800000}
+BUDGET = {"quick": 6400, "thorough": 800000}
 SHRINK = {"quick": True, "thorough": True}
 FUZZ = {"thorough": 2500}  # executions per atheris process (16 processes), after the Hypothesis search
 RULE = (
